@@ -3,7 +3,7 @@
 ID=$1; WT=$2
 cd $WT || exit 2
 echo "== demo with change"; /venv/bin/python demo_seed.py >/tmp/seed_demo_on.txt 2>&1; echo "exit $?"; tail -3 /tmp/seed_demo_on.txt
-git stash -q -- frappy; echo "== demo without change"; /venv/bin/python demo_seed.py >/tmp/seed_demo_off.txt 2>&1; echo "exit $?"; tail -2 /tmp/seed_demo_off.txt; git stash pop -q
+git diff -- frappy > /tmp/seedtest_cur.patch; git apply -R /tmp/seedtest_cur.patch; echo "== demo without change"; /venv/bin/python demo_seed.py >/tmp/seed_demo_off.txt 2>&1; echo "exit $?"; tail -2 /tmp/seed_demo_off.txt; git apply /tmp/seedtest_cur.patch
 echo "== tests with change"; /venv/bin/python -m pytest -q -p no:cacheprovider --timeout=900 --continue-on-collection-errors 2>&1 | tail -1
 cd /verif
 echo "== check quick"; VERIF_EVIDENCE_DIR=/tmp/seed_evidence FRAPPY_REPO=$WT timeout 1500 ./check $ID --tier quick 2>&1 | grep -v "^/\\\\\|^  \|^State\|^$" | cut -c1-220 | tail -8
